@@ -11,6 +11,7 @@ import (
 
 	"github.com/enbility/spine-go/api"
 	"github.com/enbility/spine-go/model"
+	"github.com/enbility/spine-go/util"
 	"pgregory.net/rapid"
 
 	"verifharness/world"
@@ -166,10 +167,36 @@ type Call struct {
 	Type          model.FeatureTypeType
 	OmitClientDev bool
 	OmitServerDev bool
+	// ForeignClientDev: the client address names this device instead of the sender's own (delete requests of
+	// announced peers only, see DrawForeignClientDev); "" = the sender's device
+	ForeignClientDev string
+}
+
+// DrawForeignClientDev makes, now and then, the client address of a delete request name a device that is not
+// the sender's: another connected peer (which uses the same entity / feature numbers) or a device nobody
+// knows. Such an address denotes no entry of the sender - the registry stores the sender's device address -
+// so the request addresses a pair that does not exist. Only for peers that have announced themselves: of an
+// unannounced peer the stack cannot know the device address and has to take what the request says.
+func DrawForeignClientDev(t *rapid.T, w *W, c *Call, label string) {
+	if w.Peers[c.Peer].Ents == nil || rapid.IntRange(0, 4).Draw(t, label+".foreignClientDevice") != 0 {
+		return
+	}
+	devs := []string{"d:_x:SOMEONE-ELSE"}
+	for i, p := range w.Peers {
+		if i != c.Peer {
+			devs = append(devs, string(p.Addr))
+		}
+	}
+	c.ForeignClientDev = rapid.SampledFrom(devs).Draw(t, label+".foreignDevice")
+	c.OmitClientDev = false
 }
 
 func (c Call) String() string {
-	return fmt.Sprintf("peer%d client %s -> server %s type %s omitC=%v omitS=%v", c.Peer+1, c.Client, c.Server, c.Type, c.OmitClientDev, c.OmitServerDev)
+	foreign := ""
+	if c.ForeignClientDev != "" {
+		foreign = " clientDevice=" + c.ForeignClientDev
+	}
+	return fmt.Sprintf("peer%d client %s -> server %s type %s omitC=%v omitS=%v%s", c.Peer+1, c.Client, c.Server, c.Type, c.OmitClientDev, c.OmitServerDev, foreign)
 }
 
 var callTypes = []model.FeatureTypeType{model.FeatureTypeTypeMeasurement, model.FeatureTypeTypeLoadControl, model.FeatureTypeTypeElectricalConnection, model.FeatureTypeTypeNodeManagement}
@@ -225,6 +252,9 @@ func (w *W) ClientAddr(c Call) *model.FeatureAddressType {
 	a := w.Peers[c.Peer].FA(c.Client.Ent, c.Client.Feat)
 	if c.OmitClientDev {
 		a.Device = nil
+	}
+	if c.ForeignClientDev != "" {
+		a.Device = util.Ptr(model.AddressDeviceType(c.ForeignClientDev))
 	}
 	return a
 }
